@@ -323,6 +323,43 @@ fn lit_for(rng: &mut Rng, col: &str) -> String {
     }
 }
 
+/// one bound on `col`, lower or upper, strict or inclusive, in either operand orientation
+fn bound_sql(col: &str, lower: bool, inclusive: bool, flipped: bool, lit: &str) -> String {
+    // col >(=) lit  /  lit <(=) col   for a lower bound;  col <(=) lit  /  lit >(=) col  for an upper bound
+    let op = match (lower != flipped, inclusive) {
+        (true, true) => ">=",
+        (true, false) => ">",
+        (false, true) => "<=",
+        (false, false) => "<",
+    };
+    if flipped {
+        format!("{} {} {}", lit, op, col)
+    } else {
+        format!("{} {} {}", col, op, lit)
+    }
+}
+
+/// conjunctions of lower and upper bounds on one column: both conjunct orders, both orientations,
+/// strict / inclusive on each side, two or three bounds, duplicated / contradictory / equal bounds
+fn gen_bounds(rng: &mut Rng, col: &str) -> String {
+    let lo = lit_for(rng, col);
+    let hi = if rng.chance(1, 4) { lo.clone() } else { lit_for(rng, col) };
+    let mut parts = vec![
+        bound_sql(col, true, rng.chance(1, 2), rng.chance(1, 3), &lo),
+        bound_sql(col, false, rng.chance(1, 2), rng.chance(1, 3), &hi),
+    ];
+    match rng.below(4) {
+        0 => parts.push(bound_sql(col, rng.chance(1, 2), rng.chance(1, 2), rng.chance(1, 3), &lit_for(rng, col))),
+        1 => {
+            let d = parts[rng.below(2) as usize].clone();
+            parts.push(d);
+        }
+        _ => {}
+    }
+    rng.shuffle(&mut parts);
+    parts.join(" AND ")
+}
+
 fn gen_pred(rng: &mut Rng, col: &str) -> String {
     let ops = ["=", "<", "<=", ">", ">="];
     match rng.below(10) {
@@ -334,7 +371,7 @@ fn gen_pred(rng: &mut Rng, col: &str) -> String {
             let vs: Vec<String> = (0..k).map(|_| lit_for(rng, col)).collect();
             format!("{} IN ({})", col, vs.join(", "))
         }
-        6 | 7 => format!("{} {} {} AND {} {} {}", col, rng.pick(&[">", ">="]), lit_for(rng, col), col, rng.pick(&["<", "<="]), lit_for(rng, col)),
+        6 | 7 => gen_bounds(rng, col),
         8 => format!("{} {} {} AND b {} {}", col, rng.pick(&ops), lit_for(rng, col), rng.pick(&ops), rng.range(0, 3)),
         _ => format!("{} {} {} OR b = {}", col, rng.pick(&ops), lit_for(rng, col), rng.range(0, 3)),
     }
@@ -413,6 +450,153 @@ with:    {}", tw.indexed.log.join(";\n"), q, p.brief(), i.brief()));
     }
 }
 
+/// one bound as SQL text and as model expression (column 0 of the key)
+fn bound_both(col: &str, lower: bool, inclusive: bool, flipped: bool, lit: &vharness::qast::Lit) -> (String, vharness::qast::E) {
+    use vharness::qast::{Op, E};
+    let sql = bound_sql(col, lower, inclusive, flipped, &lit.sql());
+    let op = match (lower != flipped, inclusive) {
+        (true, true) => Op::Ge,
+        (true, false) => Op::Gt,
+        (false, true) => Op::Le,
+        (false, false) => Op::Lt,
+    };
+    let (c, l) = (Box::new(E::Col(0)), Box::new(E::Lit(lit.clone())));
+    (sql, if flipped { E::Bin(op, l, c) } else { E::Bin(op, c, l) })
+}
+
+/// deterministic: every conjunction shape of a lower and an upper bound (both conjunct orders × both
+/// operand orientations × strict/inclusive on each side), three-bound and duplicated-bound
+/// conjunctions, contradictory and point ranges, literals taken from the data, on single- and
+/// two-column indexes, ASC and DESC; against the index-free twin (oracle) and the model's
+/// extractRange → rangeScan → (re-check unless fullySatisfied) (correspondence)
+fn probe_bound_shapes(model: &mut model::Model, rep: &mut Report) {
+    use vharness::qast::{Lit, Op, E};
+    let ints: [Option<i64>; 12] = [Some(1), Some(3), Some(2), None, Some(0), Some(5), Some(2), Some(3), Some(1), Some(-1), Some(5), Some(0)];
+    let strs: [Option<&str>; 12] = [Some("a"), Some("c"), Some("b"), None, Some(""), Some("ab"), Some("b"), Some("c"), Some("a"), Some("B"), Some("bb"), Some("")];
+    let specs: [(&str, &str, bool); 6] = [
+        ("CREATE INDEX ia ON t (a)", "a", false),
+        ("CREATE INDEX ia ON t (a DESC)", "a", false),
+        ("CREATE INDEX iab ON t (a, b)", "a", true),
+        ("CREATE INDEX isx ON t (s)", "s", false),
+        ("CREATE INDEX isb ON t (s DESC, b)", "s", true),
+        ("CREATE UNIQUE INDEX iu ON t (a, id)", "a", true),
+    ];
+    for (ddl, col, multi) in specs {
+        let mut tw = Twin { plain: Db::new(), indexed: Db::new() };
+        tw.both("CREATE TABLE t (id INTEGER PRIMARY KEY, a INTEGER, b INTEGER, s VARCHAR(10))");
+        for i in 0..12 {
+            tw.both(&format!(
+                "INSERT INTO t VALUES ({}, {}, {}, {})",
+                i,
+                ints[i].map(|v| v.to_string()).unwrap_or("NULL".into()),
+                i % 3,
+                strs[i].map(|v| format!("'{}'", v)).unwrap_or("NULL".into())
+            ));
+        }
+        tw.indexed.exec(ddl);
+        let key_of = |i: usize| -> String {
+            let first = if col == "a" { ints[i].map(|v| format!("I{}", v)).unwrap_or("N".into()) } else { strs[i].map(|v| format!("S{}", sx::hex_str(v))).unwrap_or("N".into()) };
+            if multi {
+                if ddl.contains("(a, id)") { format!("({} I{})", first, i) } else { format!("({} I{})", first, i % 3) }
+            } else {
+                format!("({})", first)
+            }
+        };
+        let keys_sx = format!("(keys ({}))", (0..12).map(key_of).collect::<Vec<_>>().join(" "));
+        let pairs: Vec<(Lit, Lit)> = if col == "a" {
+            [(1, 3), (2, 2), (3, 1), (0, 5), (1, 4), (-1, 0)].iter().map(|(l, h)| (Lit::I(*l), Lit::I(*h))).collect()
+        } else {
+            [("a", "c"), ("b", "b"), ("c", "a"), ("", "bb"), ("ab", "bz")].iter().map(|(l, h)| (Lit::S(l.to_string()), Lit::S(h.to_string()))).collect()
+        };
+        let mut preds: Vec<(String, E)> = vec![];
+        let and = |x: &(String, E), y: &(String, E)| (format!("{} AND {}", x.0, y.0), E::Bin(Op::And, Box::new(x.1.clone()), Box::new(y.1.clone())));
+        for (lo, hi) in &pairs {
+            for il in [true, false] {
+                for ih in [true, false] {
+                    for fl in [false, true] {
+                        for fh in [false, true] {
+                            let l = bound_both(col, true, il, fl, lo);
+                            let h = bound_both(col, false, ih, fh, hi);
+                            preds.push(and(&l, &h));
+                            preds.push(and(&h, &l));
+                        }
+                    }
+                }
+            }
+        }
+        // three bounds: two on one side (the tighter must win wherever it stands), duplicates
+        let (l0, h0) = pairs[3].clone();
+        let (l1, h1) = pairs[0].clone();
+        for inc in [true, false] {
+            let trip_lower = [bound_both(col, true, inc, false, &l0), bound_both(col, true, !inc, false, &l1), bound_both(col, false, inc, false, &h1)];
+            let trip_upper = [bound_both(col, true, inc, false, &l1), bound_both(col, false, !inc, true, &h0), bound_both(col, false, inc, false, &h1)];
+            let dup = [bound_both(col, true, inc, false, &l1), bound_both(col, true, inc, false, &l1), bound_both(col, false, inc, false, &h1)];
+            for t in [trip_lower, trip_upper, dup] {
+                for perm in [[0, 1, 2], [0, 2, 1], [1, 0, 2], [1, 2, 0], [2, 0, 1], [2, 1, 0]] {
+                    let xy = and(&t[perm[0]], &t[perm[1]]);
+                    preds.push(and(&xy, &t[perm[2]]));
+                }
+            }
+        }
+        for (sql, e) in preds {
+            let q = format!("SELECT id FROM t WHERE {} ORDER BY id", sql);
+            let (p, i) = (tw.plain.query(&q), tw.indexed.query(&q));
+            rep.count("bound_shape_probes");
+            let ids = |o: &Out| o.rows().map(|r| r.iter().map(|x| canon::val(&x[0])).collect::<Vec<_>>());
+            let (pi, ii) = (ids(&p), ids(&i));
+            rep.case(&format!("bounds {} {}", ddl, sql), pi.as_ref().map(|v| !v.is_empty() && v.len() < 12).unwrap_or(false));
+            if pi != ii {
+                rep.fail(
+                    FailKind::Oracle,
+                    None,
+                    &format!("conjunction of bounds: result depends on the index [{}]", ddl),
+                    &format!("{};\n{};\n-- query: {}\nwithout: {}\nwith:    {}", tw.plain.log.join(";\n"), ddl, q, p.brief(), i.brief()),
+                );
+            }
+            let req = format!("wherescan {} {}", keys_sx, e.sx());
+            let reply = model.ask(&req);
+            rep.traces_validated += 1;
+            let want = ii.map(|v| format!("(pos{}{})", if v.is_empty() { "" } else { " " }, v.iter().map(|x| x.trim_start_matches('I').to_string()).collect::<Vec<_>>().join(" ")));
+            if Some(reply.clone()) != want {
+                rep.fail(
+                    FailKind::ModelDiff,
+                    None,
+                    &format!("conjunction of bounds: model (extractRange → rangeScan → re-check) and engine select different rows [{}]", ddl),
+                    &format!("{};\n{};\n-- query: {}\n-- model request: {}\nmodel:  {}\nengine: {}", tw.plain.log.join(";\n"), ddl, q, req, reply, i.brief()),
+                );
+            }
+        }
+    }
+}
+
+/// deterministic: ROLLBACK TO SAVEPOINT over an UPDATE-only span (and a mixed one) must leave the
+/// user-defined index in step with the table
+fn probe_savepoint(rep: &mut Report) {
+    for span in [vec!["UPDATE t SET b = 9 WHERE id = 1"], vec!["UPDATE t SET a = 7 WHERE id = 0", "UPDATE t SET s = 'zz' WHERE a = 2"], vec!["UPDATE t SET a = 7 WHERE id = 0", "DELETE FROM t WHERE id = 2", "INSERT INTO t VALUES (9, 2, 2, 'n')"]] {
+        let mut tw = Twin { plain: Db::new(), indexed: Db::new() };
+        tw.both("CREATE TABLE t (id INTEGER PRIMARY KEY, a INTEGER, b INTEGER, s VARCHAR(10))");
+        tw.both("INSERT INTO t VALUES (0, 1, 0, 'a'), (1, 2, 1, 'b'), (2, 3, 2, 'c'), (3, 2, 0, 'b'), (4, 5, 1, 'e')");
+        tw.indexed.exec("CREATE INDEX ia ON t (a)");
+        tw.indexed.exec("CREATE INDEX isx ON t (s)");
+        tw.both("BEGIN TRANSACTION");
+        tw.both("UPDATE t SET b = 5 WHERE id = 4");
+        tw.both("SAVEPOINT s1");
+        for st in &span {
+            tw.both(st);
+        }
+        tw.both("ROLLBACK TO SAVEPOINT s1");
+        tw.both("COMMIT");
+        for q in ["SELECT id, a, b, s FROM t WHERE a = 2 ORDER BY id", "SELECT id, a, b, s FROM t WHERE a >= 2 AND a <= 3 ORDER BY id", "SELECT DISTINCT a FROM t WHERE a IN (1, 2, 7)", "SELECT id, a, b, s FROM t WHERE s = 'b' ORDER BY id", "SELECT id, a, b, s FROM t WHERE a > 0 ORDER BY b"] {
+            let (p, i) = (tw.plain.query(q), tw.indexed.query(q));
+            rep.count("deterministic_probes");
+            rep.case(&format!("probe savepoint {:?} {}", span, q), true);
+            if p.rows().map(|r| bag(r)) != i.rows().map(|r| bag(r)) {
+                rep.fail(FailKind::Oracle, None, "after ROLLBACK TO SAVEPOINT the index-driven result differs from the index-free twin", &format!("{}\n-- query: {}\nwithout: {}\nwith:    {}", tw.indexed.log.join(";\n"), q, p.brief(), i.brief()));
+            }
+        }
+    }
+}
+
 /// deterministic: unsorted IN lists with duplicates while the same single-column index serves ORDER BY
 fn probe_in_list_order(rep: &mut Report) {
     for (decl, idx, dir) in [("a INTEGER NOT NULL", "CREATE INDEX ia ON t (a)", ""), ("a INTEGER", "CREATE INDEX ia ON t (a DESC)", " DESC")] {
@@ -478,10 +662,38 @@ fn twin_case(rep: &mut Report, rng: &mut Rng, n: usize, nq: usize) {
             rep.count("create_index_rejected");
         }
     }
-    // more DML after the indexes exist
-    let steps = rng.below(n as u64 + 1) as usize;
-    for _ in 0..steps {
-        match rng.below(10) {
+    // more DML after the indexes exist; some histories run it inside a transaction with a
+    // savepoint whose span (UPDATE-only or mixed) is rolled back
+    let mut steps = rng.below(n as u64 + 1) as usize;
+    let txn = rng.chance(1, 3);
+    let update_only_span = rng.chance(2, 3);
+    let (mut sp_at, mut rb_at) = (usize::MAX, usize::MAX);
+    if txn {
+        steps = steps.max(3);
+        sp_at = rng.below(steps as u64 - 1) as usize;
+        rb_at = sp_at + 1 + rng.below((steps - sp_at - 1) as u64 + 1) as usize;
+        let (p, i) = tw.both("BEGIN TRANSACTION");
+        if !(p.is_ok() && i.is_ok()) {
+            rep.count("begin_rejected");
+        }
+        rep.count(if update_only_span { "twin_savepoint_update_only_span" } else { "twin_savepoint_mixed_span" });
+    }
+    for step in 0..=steps {
+        if step == rb_at {
+            let (p, i) = tw.both("ROLLBACK TO SAVEPOINT s");
+            if !(p.is_ok() && i.is_ok()) {
+                rep.count("rollback_to_savepoint_rejected");
+            }
+        }
+        if step == steps {
+            break;
+        }
+        if step == sp_at {
+            tw.both("SAVEPOINT s");
+        }
+        let in_span = txn && step >= sp_at && step < rb_at;
+        let kind = if in_span && update_only_span { 5 } else { rng.below(10) };
+        match kind {
             0..=4 => insert(&mut tw, rng, &mut next_id),
             5 | 6 => {
                 let col = *rng.pick(&["a", "b", "s"]);
@@ -506,6 +718,9 @@ fn twin_case(rep: &mut Report, rng: &mut Rng, n: usize, nq: usize) {
                 tw.both(&format!("DELETE FROM t WHERE {}", w));
             }
         }
+    }
+    if txn {
+        tw.both(if rng.chance(1, 5) { "ROLLBACK" } else { "COMMIT" });
     }
     if rng.chance(1, 8) {
         tw.both("ANALYZE t");
@@ -650,6 +865,8 @@ fn main() {
     }
     probe_f64_collapse(&mut rep);
     probe_in_list_order(&mut rep);
+    probe_bound_shapes(&mut model, &mut rep);
+    probe_savepoint(&mut rep);
     let nt = args.n(500, 6000);
     for i in 0..nt {
         let mut r = rng.fork();
